@@ -128,11 +128,12 @@ Definition numkind_of (v : pyval) : numkind :=
   | _ => NkOther
   end.
 
-Definition mod_int (x y : num) : pres bool :=
-  match x, y with
-  | NumFin a, NumFin b => if q_is_zero b then Exn ExZeroDiv else Ok (q_divisible a b)
-  | _, _ => Exn ExType
-  end.
+Definition int_val (v : pyval) : Z :=
+  match v with VInt z => z | VBool true => 1 | _ => 0 end.
+
+(* Python's floored [%] on ints is Z.modulo *)
+Definition mod_int (a b : Z) : pres bool :=
+  if b =? 0 then Exn ExZeroDiv else Ok (a mod b =? 0).
 
 Definition mod_float (x y : num) : pres bool :=
   match y with
@@ -167,7 +168,7 @@ Definition py_mod_is_zero (v f : pyval) : pres bool :=
   match num_of v, num_of f with
   | Some x, Some y =>
       match numkind_of v, numkind_of f with
-      | NkInt, NkInt => mod_int x y
+      | NkInt, NkInt => mod_int (int_val v) (int_val f)
       | NkInt, NkFloat | NkFloat, NkInt | NkFloat, NkFloat => mod_float x y
       | NkInt, NkDec | NkDec, NkInt | NkDec, NkDec =>
           if is_dec_snan v || is_dec_snan f then Exn ExInvalidOp else mod_dec x y
